@@ -143,7 +143,8 @@ func (m *MTU) unmarshal(b []byte) error {
 		return fmt.Errorf("ndp: unexpected mtu option length: %d", l)
 	}
 
-	*m = MTU(binary.BigEndian.Uint32(b[2:6]))
+	// type (1), length (1), reserved (2), mtu (4) - RFC 4861 section 4.6.4
+	*m = MTU(binary.BigEndian.Uint32(b[4:8]))
 
 	return nil
 }
